@@ -106,6 +106,20 @@ var verifBindParked = make(chan chan struct{}, 1)
 var verifDetectArmed int32
 var verifDetectParked = make(chan chan struct{}, 1)
 
+// fourth hook: in monitoredConn.monitor between notify and WaitForStateChange (see bin/overlay.py); armed per endpoint
+var verifMonArmed atomic.Value // string: the endpoint whose monitor is to be stopped ("" = none)
+var verifMonParked = make(chan chan struct{}, 1)
+
+func verifHookMonitorWait(endpoint string, reported connectivity.State) {
+	// the monitor is stopped when it has just reported READY
+	if e, _ := verifMonArmed.Load().(string); e != "" && e == endpoint && reported == connectivity.Ready {
+		verifMonArmed.Store("")
+		rel := make(chan struct{})
+		verifMonParked <- rel
+		<-rel
+	}
+}
+
 func verifHookDetect() {
 	if atomic.CompareAndSwapInt32(&verifDetectArmed, 1, 0) {
 		rel := make(chan struct{})
